@@ -157,7 +157,9 @@ TraceNext ==
               /\ UNCHANGED <<hdr, prior, planned, injected, crashed, msgs, retv, created, logged, nalloc, natural, lamb, lastcap>>
          [] e.ev = "Prior" -> prior' = e.rows /\ UNCHANGED <<hdr, pre, planned, injected, crashed, msgs, retv, created, logged, nalloc, natural, lamb, lastcap>>
          [] e.ev = "Ext" ->
-              /\ injected' = (IF e.class = "injected" /\ injected = "none" THEN e.target \o "." \o e.method ELSE injected)
+              /\ injected' = (IF injected # "none" THEN injected
+                              ELSE IF Has(e, "cancelled") THEN "caller-gave-up-at-" \o e.target \o "." \o e.method
+                              ELSE IF e.class = "injected" THEN e.target \o "." \o e.method ELSE injected)
               /\ planned' = (IF e.target = "rmgr" /\ e.method = "Alloc" /\ e.class = "ok"
                              THEN [k \in DOMAIN planned \cup {e.node} |-> IF k = e.node THEN Get(planned, e.node, 0) + e.n ELSE planned[k]] ELSE planned)
               /\ nalloc' = (IF e.target = "rmgr" /\ e.method = "Alloc" /\ e.class = "ok" THEN Append(nalloc, e.n) ELSE nalloc)
@@ -168,7 +170,7 @@ TraceNext ==
               \* a call that failed by itself before the injected one: the run has two failures, outside "single failure"
               \* "envfail": the embedded store itself failed (timed out under load): the run is outside the failure model
               /\ natural' = (IF e.class = "envfail" THEN "ENV"
-                              ELSE IF e.class = "err" /\ injected = "none" /\ e.target \in {"store", "plugin", "engine", "wal"} /\ natural = "none"
+                              ELSE IF e.class = "err" /\ injected = "none" /\ ~Has(e, "cancelled") /\ e.target \in {"store", "plugin", "engine", "wal"} /\ natural = "none"
                               THEN e.target \o "." \o e.method ELSE natural)
               /\ created' = (IF e.target = "engine" /\ e.method = "Create" /\ e.class = "ok" THEN created + 1 ELSE created)
               /\ UNCHANGED <<hdr, pre, prior, crashed, msgs, retv, lastcap>>
